@@ -500,3 +500,45 @@ def replay(ops, welcome_error=None, npeers=None, seed=0):
         for op in ops:
             ob.do(op)
         return ob, summarize(W, ob)
+
+
+# ---------------------------------------------------------------------------
+# model-guided failing-input search (DESIGN §5.3 step 2)
+
+def run_trace_case(case, oracle):
+    """replays an abstract event trace (wvsearch syntax) on a REAL client through harness/direct.py"""
+    from . import direct
+    from .core import Result
+    summary = direct.replay_trace(case["lines"], match=case.get("match", True), seed=case.get("seed", 0))
+    summary.setdefault("hist", dict(good=False, bad=False, server_error=False, welcome_error=False))
+    summary.setdefault("at_closed", None)
+    viol = oracle(summary)
+    return Result([], [], viol, ["trace"], True, info=dict(trace=[o for _, o in summary["outcomes"]]))
+
+
+def model_guided(oracle, modes=("",)):
+    """asks wvsearch for a shortest unsafe trace of the regenerated model and replays it on the real
+    code; yields (case, Result) — the Result carries violations only if the REAL code misbehaves"""
+    from . import direct
+    for mode in modes:
+        try:
+            states, header, trace = direct.model_search(mode)
+        except Exception:
+            continue
+        if not trace:
+            continue
+        case = dict(kind="trace", lines=trace, match="matchKey=true" in (header or ""), model_says=header)
+        yield case, run_trace_case(case, oracle)
+        # neighbours: the same trace with the last event repeated / a close appended
+        for extra in (["close", "released", "closed", "svcstopped"], [trace[-1]]):
+            c2 = dict(case)
+            c2["lines"] = trace + extra
+            yield c2, run_trace_case(c2, oracle)
+
+
+def trace_shrink(case):
+    lines = case["lines"]
+    for i in range(len(lines) - 1, -1, -1):
+        c = dict(case)
+        c["lines"] = lines[:i] + lines[i + 1:]
+        yield c
